@@ -14,10 +14,17 @@
       grammar: `incrStart n … incrFlagSet n` inside `forFlagInit n`);
     * expressions never emit control-flow lines and never touch the loop stack;
     * helper variables `_h<n>` are allocated by a strictly increasing counter.
-  What a theorem cannot reach - that /bin/bash gives these lines the Go meaning - is decided by the
-  reference-interpreter oracle of the check (DESIGN.md, C01).
+    * **semantic preservation for the scalar fragment** (`bash_preserves_scalar_semantics`): for every program
+      made of integer / boolean / string expressions, single assignments, if / else-if / else chains, loops
+      with break and continue, print and panic, the emitted lines ARE a block structure whose execution in the
+      bash model `Sem/Bash` prints what the source semantics `Sem/Src` prints and ends the same way - for every
+      input program of the fragment, every nesting depth and every number of loop iterations.
+  What a theorem cannot reach - that /bin/bash reads the rendered text as that block structure and executes its
+  lines as `Sem/Bash` says, and that `Sem/Src` is Go's meaning - is decided in every run by executing both models
+  next to /bin/bash and the reference interpreter on the same generated programs (DESIGN.md, C01).
 -/
 import TshVerif.Lemmas.BashStmt
+import TshVerif.Lemmas.SemProg
 namespace Tsh.C01
 open Tsh Tsh.Tr Tsh.Bash
 
@@ -89,5 +96,62 @@ private def sample : Program :=
 
 example : wfStmts sample = true := by decide
 #guard (match compile sample with | .ok ls => flagInits ls | _ => []) == [0, 1]
+
+/-! ### semantic preservation (scalar fragment) -/
+
+open Tsh.Sem in
+/-- **The bash script means what the program means.**  For every program `p` of the scalar fragment:
+    the emitted script is the shebang followed by the lines of a block structure `cmds`, and whenever the
+    source semantics runs `p` to an outcome `o` (end of program, or `exit 1` after `panic`) with printed lines
+    `out`, the bash model runs `cmds` from the empty store to the same outcome with the same printed lines.
+    No bound on program size, nesting or iterations (`fuel` is universally quantified: every terminating run). -/
+theorem bash_preserves_scalar_semantics (p : Program) (hf : Src.fragStmts p = true) (ls : List Line)
+    (hc : compile p = .ok ls) :
+    ∃ cmds : List Cmd, ls = .shebang :: flats cmds ∧
+      ∀ fuel o out, Src.runProgram fuel p = some (o, out) →
+        ∃ c' : Cfg, ExecCmds cmds Cfg.init o c' ∧ c'.out = out := by
+  unfold compile at hc
+  split at hc
+  · rename_i u s hrun
+    simp only [Res.ok.injEq] at hc
+    unfold evalProgram at hrun
+    obtain ⟨_, s1, h1, hrun⟩ := bind_ok hrun
+    obtain ⟨_, s2, h2, h3⟩ := bind_ok hrun
+    have e1 : s1 = { ({} : St) with startCode := [.shebang] } := by
+      have : addStartLine .shebang ({} : St) = .ok ((), s1) := h1
+      simp [addStartLine, Tr.modify] at this
+      exact this.symm
+    have e3 : s = s2 := by
+      have : (pure () : BM Unit) s2 = .ok (u, s) := h3
+      exact (pure_ok this).2
+    have h01 : s1.funcs = [] := by rw [e1]
+    obtain ⟨cmds, n, m, e2, sim⟩ := stmts_sem p hf s1 s2 h01 h2
+    refine ⟨cmds, ?_, ?_⟩
+    · rw [← hc, e3, e2, e1]
+      simp [dumpLines, adv2, helperLines]
+    · intro fuel o out hs
+      unfold Src.runProgram at hs
+      split at hs
+      · rename_i o' c' hs'
+        simp only [Option.some.injEq, Prod.mk.injEq] at hs
+        obtain ⟨rfl, rfl⟩ := hs
+        obtain ⟨ρ', ex, _, _⟩ := sim fuel Src.SCfg.init o' c' hs' (fun _ => "") (by intro x v hx; simp [Src.SCfg.init] at hx)
+        exact ⟨⟨ρ', c'.out⟩, ex, rfl⟩
+      · simp at hs
+  · simp at hc
+  · simp at hc
+
+open Tsh.Sem in
+/-- the hypotheses are satisfiable and the conclusion is about real behaviour: a counting loop with a
+    `continue`, in the fragment, runs in the source semantics and prints 0, 2 -/
+def semSample : Program :=
+  let i : Var := ⟨"i", ⟨.int, false⟩, true, false⟩
+  [.forS (some (.varDef [i] [.intLit 0])) (.compare "<" (.varEval i) (.intLit 3))
+      (some (.assign [i] [.binary "+" (.varEval i) (.intLit 1)]))
+      [.ifS (.compare "==" (.varEval i) (.intLit 1)) [.cont] [] [], .print [.varEval i]]]
+
+example : Tsh.Sem.Src.fragStmts semSample = true := by decide
+#guard Tsh.Sem.Src.runProgram 100 semSample == some (.normal, ["0", "2"])
+#guard (match compile semSample with | .ok ls => Tsh.Sem.run 100 ls == some (.normal, ["0", "2"]) | _ => false)
 
 end Tsh.C01
